@@ -116,14 +116,18 @@ def run_generic(case: dict) -> Result:
         mi = next((i for i, m in enumerate(idx0.get(cname, [])) if m is P), None)
         before = value_state(P)
         v = a.ref['value']
+        key = f'{cname}.{prop}'
         try:
             a.run()
         except common.REFUSAL:
             classes.add('refused')
             break
-        except Exception:  # noqa: BLE001
+        except ArithmeticError:
             break
-        key = f'{cname}.{prop}'
+        except Exception as e:  # noqa: BLE001
+            # not a refusal (those are ValueError / KeyError / IndexError ...): an in-domain value made the setter crash
+            res.bad(f'setter-crashed:{key}:{type(e).__name__}', f'{key} = {v!r} raised {e!r}')
+            break
         got = getattr(P, prop)
         want = v if not (cname == 'CostSpec' and prop == 'merge') else bool(v)
         if not (eqv(got, want) or (isinstance(want, base.RawModel) and got is want)):
